@@ -41,7 +41,14 @@ func TestVerifC19P(t *testing.T) {
 	idx := 0
 	for _, sig := range []syscall.Signal{syscall.SIGTERM, syscall.SIGINT} {
 		for _, place := range []string{"idle", "waiting-for-headers", "mid-body", "probe-in-flight", "probe-hanging",
-			"waiting-for-headers+same", "waiting-for-headers+other", "mid-body+same", "mid-body+other"} {
+			"waiting-for-headers+same", "waiting-for-headers+other", "mid-body+same", "mid-body+other",
+			// the shutdown timeout left to its documented default (30 s): omitted, or written as 0
+			"waiting-for-headers/default", "mid-body/default", "waiting-for-headers/zero", "idle/default"} {
+			shutdownLine := "    shutdown: 2\n"
+			if i := strings.Index(place, "/"); i >= 0 {
+				shutdownLine = map[string]string{"/default": "    handler: 0\n", "/zero": "    shutdown: 0\n"}[place[i:]]
+				place = place[:i]
+			}
 			// "+same"/"+other": a second stop signal 150 ms after the first, while the drain is
 			// still under way (an impatient operator or a supervisor repeating itself)
 			second := syscall.Signal(0)
@@ -65,8 +72,8 @@ func TestVerifC19P(t *testing.T) {
 				be.ProbeDelay = 6 * time.Second // longer than the shutdown timeout: only cancellation ends it in time
 			}
 			port := freePort()
-			yaml := fmt.Sprintf("server:\n  port: %d\n  timeouts:\n    shutdown: 2\nbackends:\n  - name: b0\n    address: %q\nload_balancer:\n  strategy: round_robin\n  websocket_pool:\n    enabled: true\n    max_idle: 2\n    max_active: 4\nhealth_checks:\n  active:\n    enabled: true\n    interval: 9\n    timeout: 8\n    path: %q\nlogging:\n  level: error\n  format: json\n", port, be.URL(), wire.ProbePath)
-			path := filepath.Join(dir, fmt.Sprintf("%s-%d-%d.yaml", place, sig, second))
+			yaml := fmt.Sprintf("server:\n  port: %d\n  timeouts:\n"+shutdownLine+"backends:\n  - name: b0\n    address: %q\nload_balancer:\n  strategy: round_robin\n  websocket_pool:\n    enabled: true\n    max_idle: 2\n    max_active: 4\nhealth_checks:\n  active:\n    enabled: true\n    interval: 9\n    timeout: 8\n    path: %q\nlogging:\n  level: error\n  format: json\n", port, be.URL(), wire.ProbePath)
+			path := filepath.Join(dir, fmt.Sprintf("%s-%d-%d-%d.yaml", place, sig, second, idx))
 			os.WriteFile(path, []byte(yaml), 0o644)
 			cmd := exec.Command(bin, "-config", path)
 			var out bytes.Buffer
@@ -76,7 +83,7 @@ func TestVerifC19P(t *testing.T) {
 			}
 			exited := make(chan error, 1)
 			go func() { exited <- cmd.Wait() }()
-			desc := fmt.Sprintf("%v while %s", sig, place)
+			desc := fmt.Sprintf("%v while %s (%s)", sig, place, strings.TrimSpace(shutdownLine))
 			if second != 0 {
 				desc += fmt.Sprintf(", then %v 150ms later", second)
 			}
@@ -162,7 +169,7 @@ func TestVerifC19P(t *testing.T) {
 				select {
 				case rr := <-inflight:
 					if rr.resp.Err != "" || rr.resp.Status != 200 || string(rr.resp.Body) != body {
-						fail("in-flight-request-not-completed", fmt.Sprintf("the request in flight when the signal arrived (0.7s of work left, shutdown timeout 2s) ended with status %d, %d of %d body bytes, %s", rr.resp.Status, len(rr.resp.Body), len(body), rr.resp.Err))
+						fail("in-flight-request-not-completed", fmt.Sprintf("the request in flight when the signal arrived (0.7s of work left, far less than the shutdown timeout) ended with status %d, %d of %d body bytes, %s", rr.resp.Status, len(rr.resp.Body), len(body), rr.resp.Err))
 					}
 				case <-time.After(12 * time.Second):
 					fail("in-flight-request-hung", "the in-flight request never ended")
@@ -181,5 +188,5 @@ func TestVerifC19P(t *testing.T) {
 	}
 	r.AddScenario(vres.Scenario{Name: "signals-at-placements", Engine: "P", Evaluations: evals, Distinct: int64(outs.N()), Outcomes: outs.N(),
 		Rule:  "the real binary (shutdown timeout 2s, active probing every 2s, pool enabled) receives SIGTERM or SIGINT at each placement; exit status 0 within the timeout, in-flight request completed, no probe after exit",
-		Bound: "2 signals x (5 placements + 2 in-flight placements x 2 repeated signals)", Exhaustive: true, Sample: outs.Map(), Extra: map[string]interface{}{"wall_s": time.Since(start).Seconds()}})
+		Bound: "2 signals x (5 placements + 2 in-flight placements x 2 repeated signals + 4 placements with the shutdown timeout left to its default)", Exhaustive: true, Sample: outs.Map(), Extra: map[string]interface{}{"wall_s": time.Since(start).Seconds()}})
 }
